@@ -184,6 +184,9 @@ def c_cases(ctx, r, n_cases, per_case):
 				# the bit between version and timeslot number is reserved: set by a peer, it changes nothing
 				ops.append(("D", m, legacy, r.random() < 0.12))
 			else:
+				if r.random() < 0.08:
+					# a control command is on its way (no response yet): bursts are still passed on meanwhile
+					ops.append(("K", r.choice(("SETTA %d" % r.randrange(64), "SETSLOT %d 1" % r.randrange(8), "MEASURE 1"))))
 				n = r.choice((0, 148, 148, 444))
 				br = {"fn": trxd.rand_fn(r), "tn": r.randrange(8), "pwr": trxd.rand_edge(r, 0, 255),
 				      "bits": trxd.rand_bits(r, n) if n else b""}
@@ -201,6 +204,8 @@ def render_c(idx, ops):
 			if len(op) > 3 and op[3]:
 				data = bytes([data[0] | 0x08]) + data[1:]
 			out.append("D %s" % data.hex())
+		elif op[0] == "K":
+			out.append("K %s" % op[1])
 		else:
 			br = op[1]
 			out.append("B %d %d %d %s" % (br["fn"], br["tn"], br["pwr"], bytes(br["bits"]).hex() or "-"))
@@ -233,8 +238,11 @@ def judge_c(ctx, binary, cases):
 				l = out[pos]
 				pos += 1
 				chunk.append(l)
-				if l[:2] in ("d ", "b "):
+				if l[:2] in ("d ", "b ", "k "):
 					break
+			if op[0] == "K":
+				ctx.count("c_control_commands_pending")
+				continue
 			if op[0] == "D":
 				m = op[1]
 				ctx.seen(hash(("c-rx", trxd.key(m, op[2]))))
